@@ -7,7 +7,7 @@ use super::*;
 use crate::rule::Rule;
 use crate::ticket::TicketFactory;
 use super::super::hist::{cache_contents, cache_dir};
-use super::super::scen::RULER_DIR;
+use super::super::scen::ruler_dir;
 use super::super::server_sim;
 use super::super::util::cache_name_of;
 
@@ -39,7 +39,7 @@ fn hostile_paths(rng : &mut Rng, some_valid : &str) -> Vec<(String, String, &'st
     v.push(get(format!("/files//{}", some_valid), "empty-segment"));
     v.push(get("/files/current_file_states".to_string(), "state-file-name"));
     v.push(get(format!("/cache/{}", some_valid), "other-root"));
-    v.push(get(format!("/{}/cache/{}", RULER_DIR, some_valid), "other-root"));
+    v.push(get(format!("/{}/cache/{}", &ruler_dir(), some_valid), "other-root"));
     v.push(get("/".to_string(), "root"));
     v.push(get(format!("/rules/{}", some_valid), "rules-one-segment"));
     v.push(get(format!("/rules/{}/{}", some_valid, &some_valid[..42]), "rules-short-source"));
@@ -171,7 +171,7 @@ pub fn run_case(case : &Case, seed : u64, fixed_requests : Option<&Vec<(String, 
                 pair_names.extend(r.rule_pairs.keys().cloned());
                 // (state files are excluded from the *requests*: their byte order differs between
                 //  processes; they stay in the never-serve check below)
-                for (_, c) in r.secrets.iter().filter(|(p, _)| !p.starts_with(&format!("{}/", RULER_DIR))).take(12) { secret_hashes.insert(cache_name_of(c)); }
+                for (_, c) in r.secrets.iter().filter(|(p, _)| !p.starts_with(&format!("{}/", &ruler_dir()))).take(12) { secret_hashes.insert(cache_name_of(c)); }
             }
             let some_valid = cache_names.iter().next().cloned().unwrap_or(random_name(&mut rng));
             let mut phase_reqs : Vec<(String, String, String)> = vec![];
@@ -242,7 +242,7 @@ pub fn run_case(case : &Case, seed : u64, fixed_requests : Option<&Vec<(String, 
         run_ops(&mut runner, next, None);
     });
     server_sim::set_plan(reqs.clone(), Some(hook));
-    let served = std::panic::catch_unwind(std::panic::AssertUnwindSafe(|| crate::server::serve(sys, RULER_DIR, 0)));
+    let served = std::panic::catch_unwind(std::panic::AssertUnwindSafe(|| crate::server::serve(sys, &ruler_dir(), 0)));
     let plan = server_sim::take_plan();
     let responses = match (served, plan)
     {
@@ -331,7 +331,7 @@ pub fn run_case(case : &Case, seed : u64, fixed_requests : Option<&Vec<(String, 
         {
             for (p, c) in secrets.iter()
             {
-                if c == body && !p.starts_with(&format!("{}/history/", RULER_DIR))
+                if c == body && !p.starts_with(&format!("{}/history/", &ruler_dir()))
                 {
                     out.push(Violation{ prop : "C19", sig : "C19:served-file-outside-cache".to_string(),
                         detail : format!("request {} {} {}{}: the response body is the content of {}", i, method, path, when, p) });
